@@ -669,5 +669,11 @@ class MQTTProtocol(MQTTBaseProtocol):
                 del self.factory.windowUnsubscribe[self.addr][k]
                 request.deferred.errback(reason)
             self._purgeSession(reason)
+            # Messages held back by the window belong to the lost session too
+            queue = self.factory.queuePublishTx[self.addr]
+            while len(queue):
+                request = queue.popleft()
+                if request.msgId is not None:   # QoS 0 deferreds have already fired
+                    request.deferred.errback(reason)
 
 __all__ = [ "MQTTProtocol" ]
